@@ -83,7 +83,7 @@ def search(ctx):
 
 SPEC = {
     "id": "C18",
-    "gens": ["SlotTables", "CompileTables", "TargetTables", "CbufferTables", "PipelineTables", "HlslGenTables", "HlslIntrinsicTables"],
+    "gens": ["SlotTables", "CompileTables", "TargetTables", "CbufferTables", "PipelineTables", "HlslGenTables", "HlslIntrinsicTables", "Reserved"],
     "lean_modules": ["RsslVerif.Thm.C18"],
     "theorems": [T + n for n in [
         "unmentioned_define_irrelevant", "target_dependent_names", "frontend_target_independent",
